@@ -130,6 +130,26 @@ def long_cases():
             r.shuffle(ks)
             sp.append(ref.build(prefix, m, ks))
         out.append({"text": " ; ".join(sp), "planted": [[ver, x] for x in sp[:5]]})
+    # the longest STRINGS: every metric written with its longest value name (Not Defined spelled out where that is longest):
+    # exactly at whatever length bound somebody derives from the tables
+    for ver in ("2", "3"):
+        V = spec.VERS[ver]
+        for prefix in V.prefixes:
+            for pick in (lambda vals: max(vals, key=len), lambda vals: max(reversed(vals), key=len)):
+                d = dict((m, pick(list(V.table[m]))) for m in V.order)
+                v = ref.build(prefix, d, list(V.order))
+                if ref.classify(ver, v)[0] == ref.OK:
+                    out.append({"text": v, "planted": [[ver, v]]})
+                    out.append({"text": "score: " + v + ".", "planted": [[ver, v]]})
+                    out.append({"text": v + "\n" + v[::-1], "planted": [[ver, v]]})
+    # vectors that straddle, end at, start at and lie beyond power-of-two offsets of the text (buffer and cap sizes): 4 KiB ... 16 Mi
+    v2v, v3v = "AV:N/AC:L/Au:N/C:P/I:P/A:P/E:POC/RL:OF/RC:UR/CDP:LM/TD:ND/CR:M/IR:ND/AR:H", "CVSS:3.1/AV:N/AC:L/PR:N/UI:N/S:U/C:H/I:H/A:H/E:P/MC:L/MI:N/MA:N"
+    for k in (12, 16, 20, 24):
+        for ver, v in (("2", v2v), ("3", v3v)):
+            for start in ((1 << k) - len(v) // 2, (1 << k) - len(v), (1 << k) - 4, (1 << k) + 1):
+                text = "." * start + v + " then " + v[:-1] + ("H" if ver == "3" else "L") + " end"
+                other = v[:-1] + ("H" if ver == "3" else "L")
+                out.append({"text": text, "planted": [[ver, v], [ver, other]]})
     many = [gen.rng_vector(r, r.choice("23")) for _ in range(3000)]
     out.append({"text": "\n".join(many), "planted": [[("3" if x.startswith("CVSS") else "2"), x] for x in many[::100]]})
     return out
@@ -147,7 +167,7 @@ def text_strategy():
         earlier = []
         for _ in range(n):
             kind = draw(st.sampled_from(("filler-out", "filler-in", "unicode", "valid23", "valid23", "valid4", "near", "repeat",
-                                         "respelled-repeat", "glued", "minor", "minor-twin", "min-v2", "encoded")))
+                                         "respelled-repeat", "glued", "minor", "minor-twin", "prefix-pair", "min-v2", "encoded")))
             if kind == "filler-out":
                 chunks.append(draw(st.text(alphabet=FILLER_OUT, min_size=1, max_size=8)))
             elif kind == "filler-in":
@@ -193,6 +213,24 @@ def text_strategy():
                 v = draw(gen.valid(ver))
                 c = draw(st.sampled_from(":/"))
                 chunks.append(" " + v.replace(c, draw(st.sampled_from(gen.encodings(c)))) + " ")
+            elif kind == "prefix-pair":
+                # a vector and, later in the text, the vector made of its first fields (its own base vector): one string is a textual
+                # prefix of the other, text.find() of the short one hits inside the long one
+                ver = draw(st.sampled_from(("2", "3")))
+                V = spec.VERS[ver]
+                prefix, d, _ = draw(gen.valid_parts(ver))
+                full = ref.build(prefix, d, [k for k in V.order if k in d])
+                nmand = len(V.mandatory)
+                cut = draw(st.integers(nmand, max(nmand, len(d) - 1)))
+                short = ref.build(prefix, d, [k for k in V.order if k in d][:cut])
+                if ref.classify(ver, short)[0] == ref.OK and short != full:
+                    a, b = (full, short) if draw(st.booleans()) else (short, full)
+                    chunks.append(" " + a + draw(st.sampled_from((" (base: ", " ", "\n", "; "))) + b + ") ")
+                    planted.append([ver, full])
+                    planted.append([ver, short])
+                else:
+                    chunks.append(" " + full + " ")
+                    planted.append([ver, full])
             elif kind == "minor-twin":
                 # the same metric assignment under BOTH minor versions (other field order): two different vectors, both to be returned
                 v = draw(gen.valid("3"))
@@ -256,5 +294,5 @@ def run(tier, t0):
     return runner.finish(part, tier, t0, rule,
                          ["results compared as a set (order comes from a set and is unspecified)",
                           "completeness asserted only for planted vectors that occur delimited on both sides", fuzz_note],
-                         required=["chunk:" + k for k in ("filler-out", "filler-in", "unicode", "valid23", "valid4", "near", "repeat", "respelled-repeat", "glued", "minor", "minor-twin", "min-v2", "encoded")]
+                         required=["chunk:" + k for k in ("filler-out", "filler-in", "unicode", "valid23", "valid4", "near", "repeat", "respelled-repeat", "glued", "minor", "minor-twin", "prefix-pair", "min-v2", "encoded")]
                          + ["has-delimited-vector", "has-undelimited-vector", "26-char-v2", "atheris-execs:text", "special-delimiter", "long-text"])
